@@ -154,7 +154,16 @@ def main():
     ap.add_argument("--max-len", type=int, default=5)
     ap.add_argument("--faults", action="store_true")
     ap.add_argument("--replay")
+    ap.add_argument("--asynchronous", action="store_true")
     a = ap.parse_args()
+    if a.replay and json.load(open(a.replay))["witness"].get("mode") == "async":
+        w = json.load(open(a.replay))["witness"]
+        pr = run_async_case(bytes.fromhex(w["stream"]), tuple(w["cuts"]), w["buffered"], 4, w["cancel_every"])
+        print(json.dumps({"reproduced": bool(pr), "violation": pr}))
+        return 1 if pr else 0
+    if a.asynchronous:
+        print(json.dumps(search_async(a.max_len)))
+        return 0
     if a.replay:
         w = json.load(open(a.replay))["witness"]
         pr = run_case(bytes.fromhex(w["stream"]), tuple(w["cuts"]), {int(k): v for k, v in w["faults"].items()}, w["buffered"], w["recv_size"])
@@ -162,6 +171,111 @@ def main():
         return 1 if pr else 0
     print(json.dumps(search(a.max_len, a.faults)))
     return 0
+
+
+
+
+# ---------------------------------------------------------------------------------------------------------------------
+# asynchronous endpoints: every receive is cancelled right after its first step (cancellation at the first checkpoint)
+def run_async_case(stream: bytes, cuts, buffered: bool, recv_size: int, cancel_every: int):
+    import asyncio
+
+    from easynetwork.lowlevel.api_async.backend.utils import ensure_backend
+    from easynetwork.lowlevel.api_async.endpoints.stream import AsyncStreamEndpoint
+    from easynetwork.lowlevel.api_async.transports.abc import AsyncStreamTransport
+
+    backend = ensure_backend("asyncio")
+    chunks = []
+    pos = 0
+    for k in cuts:
+        chunks.append(stream[pos:pos + k])
+        pos += k
+
+    class T(AsyncStreamTransport):
+        def __init__(self):
+            super().__init__()
+            self.q = list(chunks)
+            self.closed = False
+
+        async def recv_into(self, buffer):
+            await asyncio.sleep(0)  # a genuine suspension point; bytes are handed over only after it
+            if not self.q:
+                return 0
+            with memoryview(buffer) as b:
+                d = self.q[0][: len(b)]
+                rest = self.q[0][len(b):]
+                if rest:
+                    self.q[0] = rest
+                else:
+                    self.q.pop(0)
+                b[: len(d)] = d
+                return len(d)
+
+        async def send_all(self, data):
+            pass
+
+        async def send_eof(self):
+            pass
+
+        async def aclose(self):
+            self.closed = True
+
+        def is_closing(self):
+            return self.closed
+
+        def backend(self):
+            return backend
+
+        @property
+        def extra_attributes(self):
+            return {}
+
+    async def main():
+        ser = StringLineSerializer("LF", limit=64)
+        proto = BufferedStreamProtocol(ser) if buffered else StreamProtocol(ser)
+        ep = AsyncStreamEndpoint(T(), proto, max_recv_size=recv_size)
+        got, eofs, n = [], 0, 0
+        for _ in range(len(stream) * 6 + 30):
+            n += 1
+            task = asyncio.ensure_future(ep.recv_packet())
+            await asyncio.sleep(0)
+            if cancel_every and n % cancel_every == 0 and not task.done():
+                task.cancel()
+            try:
+                got.append(await task)
+            except asyncio.CancelledError:
+                continue
+            except ConnectionAbortedError:
+                eofs += 1
+                if eofs >= 2:
+                    break
+        await ep.aclose()
+        return got, eofs
+
+    got, eofs = asyncio.run(main())
+    want = [f.decode() for f in stream.split(b"\n")[:-1]]
+    pr = []
+    if got != want:
+        pr.append({"rule": "async: every complete packet exactly once, in order, whatever receive is cancelled (C03/C10)", "got": got, "want": want})
+    if eofs < 2:
+        pr.append({"rule": "async: end-of-stream reported and sticky (C03)", "eof_reports": eofs})
+    return pr
+
+
+def search_async(max_len: int):
+    cases = 0
+    for n in range(0, max_len + 1):
+        for tup in itertools.product(b"a\n", repeat=n):
+            stream = bytes(tup)
+            for cuts in comps(n):
+                for buffered in (False, True):
+                    for cancel_every in (0, 2, 3):
+                        cases += 1
+                        pr = run_async_case(stream, cuts, buffered, 4, cancel_every)
+                        if pr:
+                            return {"reproduced": True, "mode": "async", "stream": stream.hex(), "cuts": list(cuts), "buffered": buffered,
+                                    "cancel_every": cancel_every, "violation": pr, "cases": cases}
+    return {"reproduced": False, "cases": cases, "exhaustive": True, "max_len": max_len}
 
 
 if __name__ == "__main__":
